@@ -165,6 +165,14 @@ def run(ctx):
         iv = ival.ivals(tm.b2i(tm.slc(I, None, 32), "big"), rules.all_facts(rets[0]))
         R.check("C09.3", "DOM", fm, "master key in [1, n-1]", iv == [(1, N - 1)], "accepted master keys %s" % c03._ivs(iv))
 
+    # every seed length BIP32 allows (16..64 bytes) yields a master key: no length in that range is refused
+    refused = []
+    for L in range(16, 65):
+        k_, v_ = rules.decided_outcome(ev.run(fm, {fm.params()[0]: tm.sized("seed", L)}))
+        if k_ != "return":
+            refused.append(L)
+    R.check("C09.1", "DECISION-TABLE", fm, "to_master_key accepts every seed of 16..64 bytes (49 lengths)", not refused,
+            "to_master_key refuses seeds of %s bytes" % refused[:8], example=("a %d-byte seed" % refused[0]) if refused else None)
     check_serialize(ctx)
     check_deserialize(ctx)
     check_path(ctx)
@@ -377,6 +385,28 @@ def check_path(ctx):
             "HASH160(serP(parent pub))[:4], ser32(i), network), chained from the given key" % len(good), not badp,
             "derive_from_path(%r) is %s %s" % (badp[0] if badp else ("", "", "")), example=("path %s" % badp[0][0]) if badp else None)
     R.floor("C09.6", len(good), 12, "concrete_paths")
+    # depth boundary: a parent at depth 0, 253 or 254 has a child at depth 1, 254, 255 -- all legal, none refused
+    deep = []
+    for public in (False, True):
+        for d0 in (0, 253, 254):
+            ev.assumptions = {pub_t: public, tm.lnot(pub_t): not public, prv_t: not public, tm.lnot(prv_t): public}
+            ev.bind = {T("proj", (des0, 1)): bytes([d0])}
+            sm_ = ev.run(fi, {"path": "M/7" if public else "m/7", "master_extended_key": mk}, use_defaults=True)
+            k, v = None, None
+            for ex in sm_.exits:  # strict, except for the opaque "a handler may run" flows of try blocks
+                if any(isinstance(x, T) and x.op == "except" for x in ex.guard):
+                    continue
+                g = tm.land(list(ex.guard))
+                if g is False:
+                    continue
+                k, v = (ex.kind, ex.value) if g is True else ("undecided", g)
+                break
+            okd = k == "return" and isinstance(v, T) and v.op == "app" and v.args[0] == B32 + "serialized_extended_key" and len(v.args[1]) > 2 and v.args[1][2] == bytes([d0 + 1])
+            if not okd:
+                deep.append("%s parent at depth %d: %s %s" % ("public" if public else "private", d0, k, tm.show(v)[:100]))
+    ev.assumptions, ev.bind = {}, {}
+    R.check("C09.6", "DECISION-TABLE", fi, "children at depth 1, 254 and 255 are derived (parent depth 0 / 253 / 254), with that depth byte", not deep,
+            "derive_from_path at the depth boundary: %s" % (deep[0] if deep else ""), example="a key at depth 254 deriving its child at depth 255")
     # malformed paths and mismatched key kinds are refused
     refused = []
     for path_s, public in (("m/0", True), ("m/0'", True), ("M/0", False), ("M/1/2", False), ("x/0", False), ("", False), ("m/a", False), ("m/1/-", False), ("m//1", False), ("n", True)):
